@@ -168,7 +168,10 @@ ObsMsg(e) ==
      ELSE Fail("C06/not-delivered/" \o mapi)
 
 ObsPost(e) ==
-  IF mode = "violated" /\ vcls \in Framing /\ mapi \notin LcApis THEN
+  \* e.k: Close frames on the wire so far - whatever went wrong, and whoever started the closing
+  \* handshake, an endpoint sends one Close frame
+  IF e.k > 1 THEN Fail("C15/second-close/" \o mapi)
+  ELSE IF mode = "violated" /\ vcls \in Framing /\ mapi \notin LcApis THEN
      IF e.code # 1002 THEN Fail("C15/no-1002/" \o vcls)
      ELSE IF e.wr # 0 THEN Fail("C15/write-accepted/" \o vcls)
      ELSE UNCHANGED monvars
